@@ -40,6 +40,11 @@ def make_recogniser(t, dflt):
             op = x.ops[0]
             if isinstance(op, ast.Is) and r == 'None' and l == FILE_OLD:
                 return ('old_in_file', False)
+            if isinstance(op, ast.Is) and r == 'None' and l in (
+                    FILE_OLD + '.check', dflt + '.check', D + '.check'):
+                # a RuleDefault / DeprecatedRule always holds a parsed check
+                # (set by its constructor, see C12.COPY-IN / C03)
+                return ('never', True)
             if isinstance(op, ast.Eq):
                 pair = {l, r}
                 if pair == {OLD_NAME, NEW_NAME}:
@@ -132,6 +137,47 @@ def check_table(ctx):
                 return 'other:AND of the two defaults'
         return 'other:' + txt
 
+    tries = {}
+    for g in [f] + [x for x in prog.region(f).values() if x is not f
+                    and x.module is f.module]:
+        for n in ast.walk(g.node):
+            if isinstance(n, ast.Try):
+                tries[n.lineno] = (g, n)
+
+    def exc_atom(c):
+        """`try: x = self.file_rules[<old name>] / except KeyError` - the
+        handler path means the old name has no file rule."""
+        txt = str(getattr(c.expr, 'value', ''))
+        if 'KeyError' not in txt or 'try@' not in txt:
+            return None
+        try:
+            g, tr = tries[int(txt.rsplit('try@', 1)[1])]
+        except (KeyError, ValueError):
+            return None
+        if len(tr.body) != 1:
+            return None
+        keys = [U(n.slice) for n in ast.walk(tr.body[0])
+                if isinstance(n, ast.Subscript) and U(n.value) ==
+                'self.file_rules']
+        if len(keys) != 1 or any(isinstance(n, ast.Call)
+                                 for n in ast.walk(tr.body[0])):
+            return None
+        k = keys[0]
+        # a local alias of the deprecated rule / its name
+        al = {}
+        for n in ast.walk(g.node):
+            if isinstance(n, ast.Assign) and len(n.targets) == 1 and \
+                    isinstance(n.targets[0], ast.Name):
+                al[n.targets[0].id] = U(n.value)
+        head = k.split('.', 1)[0]
+        if head in al:
+            k = al[head] + k[len(head):]
+        if k == D + '.name':
+            return ('old_in_file', False)
+        if k == dflt + '.name':
+            return ('new_in_file', False)
+        return None
+
     # per path: atom literals + unrecognised conditions
     rows = []
     for p in t.paths:
@@ -139,6 +185,16 @@ def check_table(ctx):
         unknown = []
         consistent = True
         for c in p.conds:
+            if c.kind == 'exc':
+                a = exc_atom(c)
+                if a is None:
+                    unknown.append(c)
+                    continue
+                atom, v = a
+                if atom in lits and lits[atom] != v:
+                    consistent = False
+                lits[atom] = v
+                continue
             if c.kind != 'test':
                 unknown.append(c)
                 continue
@@ -151,6 +207,10 @@ def check_table(ctx):
             if atom == 'has_dep':
                 # the handler is only called for a default that has one
                 if not v:
+                    consistent = False
+                continue
+            if atom == 'never':
+                if v:
                     consistent = False
                 continue
             if atom in lits and lits[atom] != v:
